@@ -22,3 +22,10 @@ Definition be_write16 (l:list N) (off v:N) : list N :=
 Fixpoint list_N_eqb (a b:list N) : bool :=
   match a, b with [], [] => true | x :: a', y :: b' => (x =? y)%N && list_N_eqb a' b' | _, _ => false end.
 Definition be32_bytes (v:N) : list N := [(v / 16777216)%N; ((v / 65536) mod 256)%N; ((v / 256) mod 256)%N; (v mod 256)%N].
+(* Result<A, E> whose error type carries data the caller uses *)
+Inductive gresult (A E:Type) : Type := ROk (a:A) | RErr (e:E).
+Arguments ROk {A E} a.
+Arguments RErr {A E} e.
+(* dst[a .. a + len src].copy_from_slice(src) *)
+Definition list_splice (dst:list N) (a:N) (src:list N) : list N :=
+  firstn (N.to_nat a) dst ++ src ++ skipn (N.to_nat a + length src) dst.
